@@ -5,6 +5,9 @@ it can run while /repo itself is used; the worktree is removed at the end. usage
 import glob, json, os, re, shutil, subprocess, sys
 ids = sys.argv[1:] or sorted(os.path.basename(os.path.dirname(p)) for p in glob.glob("/verif/seeded/*/meta.json"))
 WT, WORK, EV = "/tmp/regress_repo", "/tmp/regress_work", "/tmp/regress_evidence"
+import fcntl
+_lock = open(WT + ".lock", "w")
+fcntl.flock(_lock, fcntl.LOCK_EX)  # one run at a time: two runs sharing the worktree corrupt each other's results
 subprocess.run(["git", "-C", "/repo", "worktree", "remove", "--force", WT], capture_output=True)
 subprocess.run(["git", "-C", "/repo", "worktree", "add", "--detach", WT, "HEAD", "-q"], check=True)
 env = dict(os.environ, VERIF_REPO=WT, VERIF_WORK=WORK, VERIF_EVIDENCE=EV)
